@@ -365,6 +365,7 @@ PROPS["C14"] = {
         H("cli_fail::fail_process_error", tags=["C14"], bounds="the `error:` line for three kinds of parse error (every scalar as short option), fault at any call position", timeout=1200, mem=5),
     ] + [H("cli_fail::fail_group_help_" + k, tags=["C14", "C12"], bounds="help request %s on a derived two-member command group, sink failing at that call (once or permanently: symbolic); request and position are constants" % k, timeout=1200, mem=5)
          for k in ("first_at0", "first_at2", "first_at6", "second_at0", "second_at3", "dash_h_at1")] + [
+        H("cli_glue::glue_fail_ascii_v1", tags=["C14"], features=[], cfg=["vp_h0"], nodebug=True, bounds="process_byte(b) vs accept(b) + per-key entry, both with a sink failing at a symbolic call position (once or permanently): ANY editor state with a 1-byte line (N=3), decoder flags and last byte symbolic, every byte < 0x80; optional features off", timeout=2400, mem=8),
         H("cli_fail::fail_twin", kind="twin"),
     ],
 }
